@@ -28,6 +28,19 @@ Print Assumptions C12_registry.
    guarded): carrier with a raising hook -> OKeyErr, not "no suitable variant" *)
 Definition s_ke : site := Site [0] true false true false false false 0 0 false.
 Definition h_ke : list op := [Define [] [] [] [] false; Define [0] [(0, 1)] [] [] true].
+(* ... and so does its AttributeError (the other exception class the lookup handler names) *)
+Example C12_variant_attributeerror_surfaces :
+  snd (step acc_req [s_ke] (final acc_req [s_ke] h_ke) (Decode 0 [(0, Hashable 1)] [aerr_marker])) = Some (OAttrErr 1)
+  /\ field_spec acc_req (defs h_ke) s_ke 1 [aerr_marker] (OAttrErr 1).
+Proof.
+  split; [reflexivity|].
+  assert (U: tag_unique (defs h_ke) s_ke 1).
+  { apply (proj1 (tag_uniqueb_iff (defs h_ke) s_ke 1 (wf_defs h_ke) eq_refl)). reflexivity. }
+  destruct (C12_registry acc_req [s_ke] h_ke 0 s_ke [(0, Hashable 1)] 1 [aerr_marker] eq_refl eq_refl eq_refl eq_refl U
+              (fun c _ => eq_refl)) as [o [E S]].
+  vm_compute in E. injection E as <-. exact S.
+Qed.
+
 Example C12_variant_keyerror_surfaces :
   snd (step acc_req [s_ke] (final acc_req [s_ke] h_ke) (Decode 0 [(0, Hashable 1)] [kerr_marker])) = Some (OKeyErr 1)
   /\ snd (step acc_req [s_ke] (final acc_req [s_ke] h_ke) (Decode 0 [(0, Hashable 1)] [])) = Some (OInst 1).
